@@ -515,5 +515,6 @@ def run(ctx):
     v1.id = 'C40-V1'
     for f in v1.findings:
         f.rule = 'C40-V1'
-    # sC40.rule_PYTYPE(ctx) -- pending finding (FINDING_1: int+float / int+complex / int+Py_UCS4 are merged to a C type on the unmodified tree)
-    return [rule_SST(ctx), rule_V3(ctx, vis), rule_OPS(ctx, vis), v1, rule_WIRE(ctx, vis), rule_NAME(ctx), sC40.rule_BOOL(ctx)]
+    # C40-PYTYPE: the character merges it found were repaired in /repo (53b766066); the numeric merges (int+float, int+complex, float+complex -> one C number)
+    # are long-standing documented-by-behaviour Cython semantics whose repair breaks `total = 0; total += x[i]` idioms in nogil code: recorded as known findings K11
+    return [rule_SST(ctx), rule_V3(ctx, vis), rule_OPS(ctx, vis), v1, rule_WIRE(ctx, vis), rule_NAME(ctx), sC40.rule_BOOL(ctx), sC40.rule_PYTYPE(ctx)]
